@@ -597,6 +597,66 @@ def op_m_rw_operator_pattern():
     return _rewrite(m, [pattern.RewriteRule(target, repl)])
 
 
+# ------------------------------------------------------------------------------------------ as_function extraction: the
+# extracted model-local function lists the opset imports of the matched nodes; with nodes of several domains the
+# order of that list must not come from a set.
+
+def _multi_domain_model(in_function=False, in_branch=False):
+    domains = [("", 18), ("com.microsoft", 1), ("ai.onnx.contrib", 1), ("pkg.custom.a", 1), ("zz.vendor", 2), ("b.ops", 3)]
+    nodes = [helper.make_node("Neg", ["x"], ["t0"]),
+             helper.make_node("BiasGelu", ["t0", "b"], ["t1"], domain="com.microsoft"),
+             helper.make_node("NegPos", ["t1"], ["t2"], domain="ai.onnx.contrib"),
+             helper.make_node("Twice", ["t2"], ["t3"], domain="pkg.custom.a"),
+             helper.make_node("Vend", ["t3"], ["t4"], domain="zz.vendor"),
+             helper.make_node("Bop", ["t4"], ["y"], domain="b.ops")]
+    imports = [helper.make_opsetid(d, v) for d, v in domains]
+    if in_function:
+        f = helper.make_function("local", "chain", ["x", "b"], ["y"], nodes, opset_imports=imports)
+        g = helper.make_graph([helper.make_node("chain", ["x", "b"], ["y"], domain="local")], "g",
+                              [_vi("x", [2, 4]), _vi("b", [4])], [_vi("y", [2, 4])])
+        return helper.make_model(g, opset_imports=imports + [helper.make_opsetid("local", 1)], functions=[f], ir_version=9)
+    if in_branch:
+        then_g = helper.make_graph(nodes, "then", [], [_vi("y", [2, 4])])
+        else_g = helper.make_graph([helper.make_node("Identity", ["x"], ["y2"])], "else", [], [_vi("y2", [2, 4])])
+        g = helper.make_graph([helper.make_node("If", ["c"], ["r"], then_branch=then_g, else_branch=else_g)], "g",
+                              [_vi("x", [2, 4]), _vi("b", [4]), _vi("c", [], TensorProto.BOOL)], [_vi("r", [2, 4])])
+        return helper.make_model(g, opset_imports=imports, ir_version=9)
+    g = helper.make_graph(nodes, "g", [_vi("x", [2, 4]), _vi("b", [4])], [_vi("y", [2, 4])])
+    return helper.make_model(g, opset_imports=imports, ir_version=9)
+
+
+def _multi_domain_rule():
+    from onnxscript.rewriter import pattern
+
+    def target(op_, x, b):
+        t = op_.Neg(x)
+        t = op_.BiasGelu(t, b, _domain="com.microsoft")
+        t = op_.NegPos(t, _domain="ai.onnx.contrib")
+        t = op_.Twice(t, _domain="pkg.custom.a")
+        t = op_.Vend(t, _domain="zz.vendor")
+        return op_.Bop(t, _domain="b.ops")
+
+    def repl(op_, x, b):
+        return op_.FusedChain(x, b, _domain="pkg.custom.a")
+
+    return pattern.RewriteRule(target, repl, as_function=True)
+
+
+def op_m_rw_as_function_domains():
+    """as_function=True with a match whose nodes come from six operator domains (main graph)"""
+    return _rewrite(_multi_domain_model(), [_multi_domain_rule()])
+
+
+def op_m_rw_as_function_domains_fn():
+    """the same match inside a model-local function"""
+    return _rewrite(_multi_domain_model(in_function=True), [_multi_domain_rule()])
+
+
+def op_m_rw_as_function_domains_if():
+    """the same match inside an If branch"""
+    return _rewrite(_multi_domain_model(in_branch=True), [_multi_domain_rule()])
+
+
 # ------------------------------------------------------------------------------------------ same op types at different
 # opset versions (ops whose signature changed), all on constants so that the constant folder has to evaluate them:
 # any process-wide cache keyed by less than (domain, op, version) is hit with conflicting keys by these histories.
